@@ -82,8 +82,19 @@ def _cases(draw, tier):
                 {'t': 'instr', 'mn': 'push2', 'ops': [{'k': 'expr', 'e': ['num', draw(st.integers(0, 255)), 'dec']}]},
                 {'t': 'instr', 'mn': 'clr2', 'ops': []}, {'t': 'instr', 'mn': 'nop', 'ops': []},
                 {'t': 'instr', 'mn': 'ldi', 'ops': [{'k': 'expr', 'e': ['num', draw(st.integers(0, 255)), 'dec']}]}])))
+    tail_brace = False
+    if b.zone() == 'GLOBAL' and b.room() >= 24 and not b.dead and 'brb' in cfg['instructions'] and draw(st.integers(0, 5)) == 0:
+        # a branch whose operand ends in a closing brace, and another instruction behind it
+        b.items += [{'t': 'label', 'name': 'jn0'},
+                    {'t': 'instr', 'mn': 'brb', 'ops': [{'k': 'braced', 'e': ['lab', 'jn0']}]},
+                    {'t': 'instr', 'mn': 'nop', 'ops': []}]
+        tail_brace = True
     flat = list(G.flatten(b.items))
     surf = [draw(_surface()) for _ in flat]
+    if tail_brace:
+        surf[-2]['join'] = surf[-1]['join'] = True
+        surf[-2]['joinws'] = '  '
+        surf[-2]['comment'] = None
     return {'isa': cfg, 'items': b.items, 'surface': surf, 'lo': b.lo}
 
 
@@ -154,7 +165,12 @@ def render_surface(items, surf):
             k += 1
         elif it['t'] == 'instr' and s['join']:
             while k + 1 < len(flat) and flat[k + 1]['t'] == 'instr' and surf[k + 1]['join']:
-                text = text + s['joinws'] + render_line(flat[k + 1], surf[k + 1])
+                joinws = s['joinws']
+                if text.endswith('}') and joinws in ('  ', '\t\t'):
+                    # a closing brace ends its operand: the next instruction may follow without a blank
+                    joinws = ''
+                    kinds.add('next-instruction-directly-after-a-closing-brace')
+                text = text + joinws + render_line(flat[k + 1], surf[k + 1])
                 kinds.add('instructions-joined-on-one-line')
                 k += 1
         for _ in range(s['blank_before']):
